@@ -87,6 +87,18 @@ def run(ctx):
         marks = [{"kind": "init"}, {"kind": "mktree", "tree": ta}, {"kind": "backup", "plan": None, "tree": ta, "snap_at": 1},
                  {"kind": "mktree", "tree": tb}, {"kind": "backup", "plan": None, "tree": tb, "snap_at": 3}, {"kind": "delete"}, {"kind": "arch"}]
         cases.append({"id": f"fd{t}", "steps": steps, "marks": marks, "oracle_only": True})
+    # directory entries whose names are not UTF-8 (two of them differing only in such bytes): whatever the backup does with
+    # them, what it writes is well-formed (strictly increasing paths) and it does not crash
+    for t in range(2 if quick else 6):
+        tr_ = {"k": "d", "mode": 0o755, "mtime": 10**18, "c": {"plain": {"k": "f", "data": "70", "mode": 0o644, "mtime": 10**18 + 1},
+                                                            "sub": {"k": "d", "mode": 0o755, "mtime": 10**18, "c": {}}}}
+        raw = [(b"x" + bytes([b_])).hex() for b_ in ctx.rng.sample([0xfe, 0xff, 0xe9, 0x80, 0xc3], 3)]
+        steps = [{"op": "init"}, {"op": "mktree", "path": "src", "tree": tr_}, {"op": "mkraw", "dir": "src/sub", "names_hex": raw, "empty": True},
+                 {"op": "mkraw", "dir": "src", "names_hex": raw[:2], "empty": True},
+                 {"op": "backup", "opts": {"meph": ctx.rng.choice([1, 2, 100000]), "mbs": 64, "sfc": 16}}, {"op": "arch"}]
+        marks = [{"kind": "init"}, {"kind": "mktree", "tree": tr_}, {"kind": "mkraw"}, {"kind": "mkraw"},
+                 {"kind": "backup", "plan": None, "tree": tr_, "snap_at": 1}, {"kind": "arch"}]
+        cases.append({"id": f"un{t}", "steps": steps, "marks": marks, "oracle_only": True})
     # a version with more index hunks than fit one index sub-directory (10000): the numbering carries on into i/00001/
     big = {"k": "d", "mode": 0o755, "mtime": 10**18, "c": {f"e{i:05d}": {"k": "f", "data": "", "mode": 0o644, "mtime": 10**18} for i in range(10040)}}
     steps = [{"op": "init"}, {"op": "mktree", "path": "src", "tree": big}, {"op": "backup", "opts": {"meph": 1, "mbs": 64, "sfc": 0}}, {"op": "arch"}]
@@ -103,6 +115,10 @@ def run(ctx):
         ok = True
         src_sizes = {}
         for i, (st, mk, rs) in enumerate(zip(c["steps"], c["marks"], r)):
+            if isinstance(rs, dict) and rs.get("panic"):
+                ctx.oracle_fail("format/panic", f"step {i} ({st['op']}) crashed: {rs['panic'][:200]}", {"steps": c["steps"][:i + 1]})
+                ok = False
+                break
             if mk["kind"] == "mktree":
                 src_sizes = {p: len(b) for p, b in scen.tree_file_bytes(mk["tree"]).items()}
             if mk["kind"] == "arch":
